@@ -13,28 +13,37 @@ from harness.common import Ck, coq_bytes, coq_list, coq_str, parse_coq_N_list
 from translate import c13_archname, c13_vpk
 
 MANIFEST = dict(
-    technique='Rocq proof (directory-tree codec round trip; write_dirfile+reopen preserves every entry for every placement; '
-              'one write reads back; read-only rejection; name forms) + ast translator for format constants/placement sites + '
-              'vm_compute correspondence of a whole-history state machine incl. independent decode of the on-disk directory + '
-              'oracle search on real temp dirs',
-    text='Theorems in Props/C13.v: for every format instance with in-range constants load_dirfile(write_dirfile(tree, footer)) '
-         'returns the same entries (offset normalised when nothing is stored outside the tree) and footer; grouping/sorting the '
-         'table for writing is a permutation of it; after one FileInfo.write the file reads back exactly the data and verifies, '
-         'for every placement (preload, directory tail, numbered archive, singular), dir_limit and size; write_dirfile followed by '
-         'reopening in r/a mode succeeds and yields exactly the same files with the same bytes, verify() and checksums; read-only '
-         'archives reject every mutation unchanged; the three name forms of a path resolve to the same key (for every normpath). '
-         'The format constants, struct layouts, sentinel tests, the footer placement site, the preload cap and the index/name '
-         'validation sites are regenerated from vpk.py on every run and kernel-checked as instance obligations. The whole-history '
-         'statement (any sequence of operations agrees with a plain map) is NOT proved by induction: the executable model SM/Vpk.v '
-         'is run against the implementation on random histories on real directories (result codes, per-file bytes, verify, '
-         'byte-exact _dir file and archives via length+CRC32), and the model decoder decodes the bytes the implementation wrote '
-         '(plus damaged copies); an oracle compares the implementation with a dict over histories crossing every placement.',
-    note='Trusted: Coq kernel + vm_compute (incl. Uint63 for the test CRC-32), translate/c13_vpk.py, hand models Fmt/VpkDir.v, '
-         'SM/Vpk.v, Fmt/VpkName.v (tied by differential runs), zlib.crc32 (a Section variable in the theorems; its chaining '
-         'crc32(b, crc32(a)) = crc32(a+b) is assumed), posixpath.normpath (a parameter of name_forms_agree), OS append/seek '
-         'semantics. CRC collisions: FileInfo.write skips a write whose checksum equals the stored one (theorem premise crc d <> '
-         'stored crc). VPK version 2 headers, the root= argument, add_folder/extract_all and VPKFileSystem are outside the model. '
-         'File names whose last component ends in "." are listed without the dot (known finding name-trailing-dot).',
+    technique='Rocq proof: whole-history refinement of the executable VPK state machine to a plain map (invariant + induction over the '
+              'operation list, every placement/dir_limit/size, CRC as a Section function with an explicit no-collision premise); directory-tree '
+              'codec round trip (versions 1 and 2); archive file naming (writer and readers use the same file, symbolic evaluation of the '
+              'translated prefix expressions); name forms; read-only rejection + ast translators (format constants, placement/validation sites, '
+              'prefix expression of every get_arch_filename site, the split statement of _get_file_parts) with kernel-checked instance '
+              'obligations + vm_compute correspondence (histories on real directories byte-exact, independent decode incl. version 2 and damaged '
+              'files, archive names really opened, name forms) + oracle search with a strict independent decoder',
+    text='Theorems in Props/C13.v. c13_vpk_refines_map: for every configuration that validates indexes and names, every finite sequence of '
+         'new_file/add_file/FileInfo.write/del/write_dirfile/reopen(r,w,a) on a fresh archive whose write_dirfile calls do not overflow a 32-bit '
+         'field and whose data values (with the empty string) do not collide under the checksum: the model SM/Vpk.v returns the result code of '
+         'the specification map at every operation and afterwards is in the same mode, lists exactly the map\'s names, and every file reads '
+         'back the map\'s bytes and verifies; c13_history_save_reopen: the same at the property\'s observation point (any history, '
+         'write_dirfile, reopen r/a). Ingredients kept as theorems: load_dirfile(write_dirfile(tree, footer)) returns the same entries and '
+         'footer for every format instance with in-range constants (version 1; version 2 with the four extra header fields skipped, read side '
+         'only); grouping/sorting for writing is a permutation; one write reads back for every placement; save+reopen preserves every entry; '
+         'read-only archives reject every mutation. Archive naming: for every file name ending in the directory suffix and every index the '
+         'file FileInfo.write appends to is the file read/verify open (= get_arch_filename(prefix, index)), get_arch_filename(prefix) is the '
+         'directory file, distinct indexes are distinct files and none is the directory file; character stripping (rstrip) is refuted by a '
+         'computed witness. Name forms: string, 2-tuple and 3-tuple agree for every normpath whenever the translated split statement cuts at '
+         'the last dot (first-dot split refuted). All generic theorems are instantiated by kernel-checked obligations on Gen/VpkPlace_gen.v and '
+         'Gen/VpkArchName_gen.v regenerated from vpk.py on every run.',
+    note='The model SM/Vpk.v (step/run), the codec Fmt/VpkDir.v/VpkDirV2.v, Fmt/VpkName.v and the string primitives of Fmt/VpkArchName.v are '
+         'hand-written and tied to srctools.vpk by differential runs on every run (not by proof): histories on real temp directories compared '
+         'byte-exactly, decode of written/damaged/version-2 files, the archive files really opened by the three get_arch_filename sites, name '
+         'forms. Trusted: Coq kernel + vm_compute (incl. Uint63 for the test CRC-32), translate/c13_vpk.py, translate/c13_archname.py, '
+         'zlib.crc32 (a Section variable in the theorems; its chaining crc32(b, crc32(a)) = crc32(a+b) is assumed), posixpath.normpath (a '
+         'parameter of the name theorems), OS append/seek semantics (archives modelled as append-only byte lists; the "ab" open mode and '
+         'seek(0, SEEK_END) are a translated site). Premises that are real limits of the code: a write whose CRC-32 equals the stored one is '
+         'skipped (collision premise); fields >= 4 GiB make write_dirfile raise. Outside the model: writing version 2, the root= argument, '
+         'add_folder/extract_all/script_write, VPKFileSystem, stale FileInfo handles, other processes, archive files present before the '
+         'history. File names whose last component ends in "." are listed without the dot (known finding name-trailing-dot).',
 )
 
 IMPORTS = ['Coq.Lists.List', 'Coq.NArith.NArith', 'SV.Fmt.VpkDir', 'SV.SM.Vpk', 'SV.Fmt.VpkArchName', 'SV.SM.VpkCorr', 'SV.Gen.VpkPlace_gen',
@@ -956,15 +965,19 @@ def run(ck: Ck) -> None:
                '65535/65536 up to 300000, limits None/0/1/4/8/64/1024/70000, indexes None/0/1/.../32766 and out-of-range, _dir and '
                'singular archives, always ending in write_dirfile + reopen; non-trivial = at least one file exists at the end and '
                'at least 3 operation kinds occur; distinct by full history. decode: files written by the implementation and '
-               'truncated/byte-flipped copies, non-trivial = at least one entry loads. names: pool + random strings over '
-               '"ab./\\\\ ", non-trivial = not all parts empty.')
-    ck.trusted.append('hand-written models Fmt/VpkDir.v, SM/Vpk.v, Fmt/VpkName.v (tied by differential correspondence on every run); '
-                      'zlib.crc32 incl. its chaining property; posixpath.normpath')
+               'truncated/byte-flipped copies, version-2 copies (header patched, 16 arbitrary bytes inserted) and bad-version copies, '
+               'non-trivial = at least one entry loads. names: pool + random strings over "ab./\\\\ ", non-trivial = not all parts empty. '
+               'archive names: VPK file names = bases ending in/containing characters of "_dir.vpk" x suffixes (_dir.vpk, .vpk, none, _dir, '
+               'dir.vpk, _DIR.vpk, ...) + random strings over "_dir.vpka0", two distinct indexes from 0..32766 each; observed = _dir_prefix and '
+               'the file each of the three get_arch_filename sites really opens; non-trivial = a directory VPK.')
+    ck.trusted.append('hand-written models Fmt/VpkDir.v, Fmt/VpkDirV2.v, SM/Vpk.v, Fmt/VpkName.v, string primitives of Fmt/VpkArchName.v (tied by '
+                      'differential correspondence on every run); zlib.crc32 incl. its chaining property; posixpath.normpath; '
+                      'translate/c13_archname.py')
     ck.assumptions += [
-        'CRC-32 of the new data differs from the stored checksum unless the data is the same (premise of c13_write_reads: FileInfo.write skips a write whose checksum equals the stored one)',
-        'no archive or directory field exceeds 32 bits (write_dirfile would raise struct.error; c13_save_reopen_reads is stated for saves that succeed)',
-        'whole histories are covered by correspondence and search, not by an inductive theorem',
-        'fresh directory: no numbered archive files exist before the history starts; one process at a time',
+        'the data values written in one history, together with the empty string, have pairwise different CRC-32 unless equal (premise collision_free of c13_vpk_refines_map: FileInfo.write skips a write whose checksum equals the stored one; checked with zlib on every generated history, see input_distribution.refinement_premise)',
+        'no archive or directory field exceeds 32 bits (write_dirfile would raise struct.error; the refinement is stated for histories whose run is not None)',
+        'fresh directory: no numbered archive files exist before the history starts; one process at a time; numbered archives are append-only files (open mode "ab", offset = seek(0, SEEK_END): translated site archive_appended_at_end_and_read_at_offset)',
+        'the state machine SM/Vpk.v is the implementation: tied by correspondence on sampled histories and by the translated sites, not by proof',
     ]
     ok_t = ck.translate('VpkPlace_gen', c13_vpk.translate)
     ok_t = ck.translate('VpkArchName_gen', c13_archname.translate) and ok_t
